@@ -77,6 +77,8 @@ impl<'a> Checker<'a> {
             TypeData::Int(k) => {
                 let i = match cv {
                     CV::Int(i) => *i,
+                    // far outside every integer type, whatever the exact value is
+                    CV::Float(f) if f.v.abs() >= 3.7e19 => return Repr::Overflow("overflows".into()),
                     CV::Float(f) => match consts::fc_to_int(*f) {
                         Ok(i) => i,
                         Err(consts::ReprErr::Truncated) => return Repr::Overflow("truncated".into()),
@@ -241,9 +243,11 @@ impl<'a> Checker<'a> {
                 Some(c) => Ok(c.e),
                 None => {
                     // make the message mention the context
+                    let grew = self.errors.len() > before;
+                    let tstr = self.tt.type_string(target);
                     if let Some(last) = self.errors.last_mut() {
-                        if self.errors.len() > before && last.rule == rule {
-                            last.msg = format!("cannot use {} as {} value in {}", desc, self.tt.type_string(target), ctx);
+                        if grew && last.rule == rule {
+                            last.msg = format!("cannot use {} as {} value in {}", desc, tstr, ctx);
                             last.line = pos.line;
                             last.col = pos.col;
                         }
